@@ -507,8 +507,22 @@ pub mod validators_shim {
     #[derive(Clone, Copy, Debug, PartialEq, Eq)]
     pub struct ValidatorUpdate { pub power: u32, pub verification_key: VerificationKey, pub name: u8 }
     /// the per-block update set (keyed by verification key): read-modify-write of one entry
-    pub struct ValidatorSet { pub changed: Option<ValidatorUpdate> }
-    impl ValidatorSet { pub fn insert(&mut self, u: ValidatorUpdate) { self.changed = Some(u); } }
+    pub struct ValidatorSet { pub changed: Option<ValidatorUpdate>, pub removed: Option<VerificationKey> }
+    impl ValidatorSet {
+        pub fn insert(&mut self, u: ValidatorUpdate) { self.changed = Some(u); }
+        /// entry of the stored per-block update set for this key (the set as read from state, plus local edits)
+        pub fn get(&self, k: &VerificationKey) -> Option<ValidatorUpdate> {
+            if let Some(u) = self.changed { if u.verification_key == *k { return Some(u); } }
+            if self.removed == Some(*k) { return None; }
+            store().get(Key::BlockValidatorUpdate(k.addr)).map(|v| ValidatorUpdate { power: v as u32, verification_key: *k, name: 0 })
+        }
+        pub fn remove(&mut self, k: &VerificationKey) -> Option<ValidatorUpdate> {
+            let old = self.get(k);
+            if let Some(u) = self.changed { if u.verification_key == *k { self.changed = None; } }
+            self.removed = Some(*k);
+            old
+        }
+    }
     pub trait StateReadExt: StateRead {
         fn get_validator_count(&self) -> eyre::Result<u64> {
             if let Some(e) = io_err() { return e; }
@@ -520,7 +534,7 @@ pub mod validators_shim {
         }
         fn get_block_validator_updates(&self) -> eyre::Result<ValidatorSet> {
             if let Some(e) = io_err() { return e; }
-            Ok(ValidatorSet { changed: None })
+            Ok(ValidatorSet { changed: None, removed: None })
         }
     }
     impl<T: StateRead + ?Sized> StateReadExt for T {}
@@ -529,6 +543,7 @@ pub mod validators_shim {
         fn put_validator(&mut self, v: &ValidatorUpdate) -> eyre::Result<()> { store().put(Key::Validator(v.verification_key.addr), v.power as Val); Ok(()) }
         fn remove_validator<T: AddressBytes>(&mut self, key: &T) { store().delete(Key::Validator(*key.address_bytes())); }
         fn put_block_validator_updates(&mut self, set: ValidatorSet) -> eyre::Result<()> {
+            if let Some(k) = set.removed { store().delete(Key::BlockValidatorUpdate(k.addr)); }
             if let Some(u) = set.changed { store().put(Key::BlockValidatorUpdate(u.verification_key.addr), u.power as Val); }
             Ok(())
         }
